@@ -7,6 +7,7 @@ import (
 	"bytes"
 	"encoding/binary"
 	"encoding/json"
+	"errors"
 	"fmt"
 	"math/rand"
 	"os"
@@ -550,7 +551,11 @@ func c09Exec(s **LevelDBStore, dir string, m *c09Model, op c09Op, converted *boo
 		if err := st.Close(); err != nil {
 			diffs = append(diffs, "close-error: "+err.Error())
 		}
-		ns, err := NewLevelDBStore(dir, false, op.Proto)
+		ns, err := c09Open(dir, op.Proto)
+		if err == errC09OpenHangs {
+			diffs = append(diffs, fmt.Sprintf("reopen-hangs: NewLevelDBStore(protobuf=%v) of a store with %d entries has not returned after %v", op.Proto, len(m.logs), c09OpenPatience))
+			return diffs
+		}
 		if err != nil {
 			diffs = append(diffs, "reopen-error: "+err.Error())
 			return diffs
@@ -563,6 +568,30 @@ func c09Exec(s **LevelDBStore, dir string, m *c09Model, op c09Op, converted *boo
 	}
 	m.apply(op)
 	return diffs
+}
+
+// c09OpenPatience: opening (and converting) the few hundred entries of these programs takes
+// milliseconds; an open that has not returned after a minute is stuck.
+const c09OpenPatience = 60 * time.Second
+
+var errC09OpenHangs = errors.New("open does not return")
+
+func c09Open(dir string, proto bool) (*LevelDBStore, error) {
+	type res struct {
+		s   *LevelDBStore
+		err error
+	}
+	ch := make(chan res, 1)
+	go func() {
+		s, err := NewLevelDBStore(dir, false, proto)
+		ch <- res{s, err}
+	}()
+	select {
+	case r := <-ch:
+		return r.s, r.err
+	case <-time.After(c09OpenPatience):
+		return nil, errC09OpenHangs
+	}
 }
 
 func diffKey(d string) string {
@@ -596,6 +625,7 @@ func TestVerifC09(t *testing.T) {
 		m := newC09Model()
 		converted := startProto
 		kinds := map[string]bool{}
+		stuck := false
 		func() {
 			defer func() {
 				if p := recover(); p != nil {
@@ -605,6 +635,12 @@ func TestVerifC09(t *testing.T) {
 			for oi, op := range ops {
 				for _, df := range c09Exec(&s, d, m, op, &converted) {
 					rep.Violation("C09", diffKey(df), fmt.Sprintf("seed %d op %d (%s): %s", seed, oi, op.Kind, df), map[string]interface{}{"seed": seed, "op_index": oi, "op": op})
+					if diffKey(df) == "reopen-hangs" || diffKey(df) == "reopen-error" {
+						stuck = true
+					}
+				}
+				if stuck {
+					return // no store to go on with
 				}
 				kinds[op.Kind] = true
 				rep.Case("")
@@ -614,7 +650,9 @@ func TestVerifC09(t *testing.T) {
 				rep.Violation("C09", diffKey(df), fmt.Sprintf("seed %d final check: %s", seed, df), map[string]interface{}{"seed": seed})
 			}
 		}()
-		s.Close()
+		if !stuck {
+			s.Close()
+		}
 		os.RemoveAll(d)
 		var ks []string
 		for kk := range kinds {
